@@ -102,7 +102,7 @@ def oracle_truncated(rec, r, segs, impl, cut, total, head_len):
 
 
 H2_PROFILE = dict(max_connections=1, init_max_streams=10, p_rst=0.25, p_eof=0.05, downs=[0, 1, 10, 3000, 70000], ups=[0, 0, 5],
-                  padding=True, p_ping=0.1)
+                  padding=True, p_ping=0.1, empty_data=True)
 
 
 def run_h2(ctx, rec, driver):
